@@ -45,7 +45,7 @@ var c02Factors = []struct {
 	name string
 	n    int64
 }{{"base", 3}, {"bits", 256}, {"anchor", 3}, {"identity", 3}, {"expiry", 3}, {"certTime", 2}, {"revocation", 4}, {"plugin", 10},
-	{"vIdentity", 3}, {"vRevocation", 3}, {"callErr", 2}, {"crit", 3}, {"scheme", 2}, {"format", 2}, {"legacy", 2}}
+	{"vIdentity", 3}, {"vRevocation", 3}, {"callErr", 2}, {"crit", 3}, {"scheme", 2}, {"format", 2}, {"legacy", 2}, {"pver", 6}}
 
 func (c02) Gen(r *rand.Rand, tier string, idx int) *core.Plan {
 	w := map[string]int64{}
@@ -86,6 +86,7 @@ func (c02) Gen(r *rand.Rand, tier string, idx int) *core.Plan {
 	w["scheme"] = r.Int64N(2)
 	w["format"] = r.Int64N(2)
 	w["legacy"] = r.Int64N(2)
+	w["pver"] = healthy(6, 60)
 	return p
 }
 
@@ -140,7 +141,7 @@ func (l c02) Exec(env *core.Env) *core.Result {
 		plug := w["plugin"]
 		if plug != 0 {
 			so.ExtAttrs = append(so.ExtAttrs, signature.Attribute{Key: "io.cncf.notary.verificationPlugin", Critical: true, Value: c02Plugin})
-			if plug == 3 || w["bits"]%2 == 0 {
+			if plug == 3 || w["bits"]%2 == 0 || w["pver"] != 0 {
 				so.ExtAttrs = append(so.ExtAttrs, signature.Attribute{Key: "io.cncf.notary.verificationPluginMinVersion", Critical: true, Value: "1.5.0"})
 			}
 		}
@@ -206,6 +207,21 @@ func (l c02) Exec(env *core.Env) *core.Result {
 						sp.Meta.Version = "2.0"
 						caps = []pf.Capability{pf.CapabilityTrustedIdentityVerifier}
 					}
+					// the installed version relative to the signed minimum 1.5.0 (SemVer precedence decides)
+					if plug >= 5 && plug <= 7 {
+						switch w["pver"] {
+						case 1:
+							sp.Meta.Version = "1.5.0" // exactly the minimum: new enough
+						case 2:
+							sp.Meta.Version = "1.5.0-rc.1" // a pre-release of the minimum precedes it: too old
+						case 3:
+							sp.Meta.Version = "1.10.0" // numerically, not lexically, newer
+						case 4:
+							sp.Meta.Version = "1.5.0+build7" // build metadata is ignored: new enough
+						case 5:
+							sp.Meta.Version = "1.4.99"
+						}
+					}
 					sp.Meta.Capabilities = caps
 					sp.Verdicts = map[pf.Capability]*pf.VerificationResult{}
 					verdict := func(c pf.Capability, v int64) {
@@ -247,8 +263,11 @@ func (l c02) Exec(env *core.Env) *core.Result {
 			identities = []string{"x509.subject: CN=somebody-else,O=Elsewhere,L=Paris,ST=IDF,C=FR"}
 		}
 		pluginProblem := plug == 1 || plug == 2 || plug == 3 || plug == 4 || plug == 8 || plug == 9
-		situation := fmt.Sprintf("anchor=%d identity=%d expiry=%d certTime=%d revocation=%d plugin=%d verdicts=%d/%d callErr=%d crit=%d scheme=%d fmt=%d legacy=%d bits=%d",
-			w["anchor"], w["identity"], w["expiry"], w["certTime"], w["revocation"], plug, w["vIdentity"], w["vRevocation"], w["callErr"], w["crit"], w["scheme"], w["format"], w["legacy"], w["bits"])
+		if plug >= 5 && plug <= 7 && (w["pver"] == 2 || w["pver"] == 5) {
+			pluginProblem = true // installed version precedes the signed minimum
+		}
+		situation := fmt.Sprintf("anchor=%d identity=%d expiry=%d certTime=%d revocation=%d plugin=%d verdicts=%d/%d callErr=%d crit=%d scheme=%d fmt=%d legacy=%d bits=%d pver=%d",
+			w["anchor"], w["identity"], w["expiry"], w["certTime"], w["revocation"], plug, w["vIdentity"], w["vRevocation"], w["callErr"], w["crit"], w["scheme"], w["format"], w["legacy"], w["bits"], w["pver"])
 		accepted := map[string]bool{}
 		for base := int64(0); base < 3; base++ {
 			levelName, override, enf := levelFromKnobs(base, w["bits"])
